@@ -180,6 +180,12 @@ def run(facts, chk, tier, only=None):
                 if wv.dominates(bb, call_bb) and any(y[0] == 'field' and y[2] == fidx for y in subexprs(e)):
                     return True
             return False
+        # the per-position rows come from the transpose of the (samples x positions) alignment array
+        asg = [(bb, t) for bb, t in wv.calls() if (t.callee.name or '').endswith('::assign')]
+        tr = any(any(x[0] == 'call' and x[1].endswith('::t') for x in subexprs(ebt.operand(t.args[1]))) for _, t in asg)
+        zp = [(bb, t) for bb, t in wv.calls() if (t.callee.name or '').endswith('Iterator::zip') and 'IdxCheckIter' in (t.callee.full or '')]
+        ok_z = len(zp) == 1 and any(x[0] == 'call' and x[1].endswith('outer_iter') for x in subexprs(ebt.operand(zp[0][1].args[0])))
+        res.append(('transpose', tr and ok_z, 'positions = outer_iter of the transposed alignment array, zipped with IdxCheck'))
         res.append(('header-contigs', len(ac) == 1 and loop_source(ac[0][0], names_idx), 'header contigs iterate chrom_names in order'))
         res.append(('header-samples', len(asn) == 1 and loop_source(asn[0][0], mn_idx), 'header samples iterate mapped_names in order'))
         return res
